@@ -135,7 +135,9 @@ FilteredByTime(i, k, ts) ==
     /\ \E t \in acc[i] : Abs(ts - t) < MinSep
 
 \* KEEP_LAST replacement (C18): the instance already holds Depth data samples.
-Replaces(i, k) == Depth > 0 /\ k = "ALIVE" /\ Cardinality(AliveIdxOfInst(i)) >= Depth
+\* (dust-dds also makes room this way for a dispose/unregister sample that arrives while the
+\*  instance holds Depth data samples; the statements do not say, the model follows the code)
+Replaces(i, k) == Depth > 0 /\ Cardinality(AliveIdxOfInst(i)) >= Depth
 
 \* Resource limits (C19): the set of limits that storing one more sample would exceed.
 ExceededLimits(i, k) ==
@@ -188,7 +190,9 @@ AddChange(w, i, k, ts) ==
        ELSE IF ~Replaces(i, k) /\ ExceededLimits(i, k) # {} THEN
             /\ NoChange
             /\ hist' = Append(hist, rec("Rejected"))
-            /\ lastOp' = AddOp(w, i, k, ts, "Rejected", ExceededLimits(i, k), "limits:rejected")
+            /\ lastOp' = AddOp(w, i, k, ts, "Rejected", ExceededLimits(i, k),
+                               IF inst[i].known /\ ApplyState(w, i, k).is # inst[i].is
+                               THEN "limits:rejected-would-change-instance-state" ELSE "limits:rejected")
        ELSE
             LET st == ApplyState(w, i, k)
                 base == IF Replaces(i, k) THEN RemoveAt(samples, Min(AliveIdxOfInst(i)))
